@@ -135,6 +135,8 @@ pub fn run_program<S: Exec>(p: &Value) -> (Vec<String>, usize, Option<String>) {
         Ok(r) => r,
         Err(_) => return (Vec::new(), 0, Some("undecodable registers at this scalar".into())),
     };
+    // a program whose initial registers are not representable at this scalar type is not run at it
+    if regs.iter().any(|r| is_bad(&r.enc())) { return (Vec::new(), 0, Some("unrepresentable-initial-register".into())); }
     let mut m = Machine::<S>::new(pid, regs);
     for c in p["calls"].as_array().unwrap() {
         let args: Vec<usize> = c["a"].as_array().unwrap().iter().map(|x| x.as_u64().unwrap() as usize - 1).collect();
